@@ -1,22 +1,90 @@
 """Component `autoalloc` (model M6, Slurm/PBS automatic allocation): properties C17 and C18. See /verif/notes/autoalloc.md."""
 
+_ASSUMPTIONS = [
+    "Environment = inputs. The batch system (QueueHandler: results of submit_allocation, the status map of "
+    "get_status_of_allocations incl. per-allocation errors, missing ids and whole-call failures; remove_allocation results "
+    "are only logged by the code), the scheduler's answer to ServerRef::new_worker_query (incl. error, wrong length, bad "
+    "index, oversized multi-node request) and the monotonic clock are universally quantified inputs of the model steps; "
+    "the scheduler itself (compute_new_worker_query, clause c17_no_demand of DESIGN.md) is NOT modelled here.",
+    "Hash-map iteration orders the behaviour depends on are choice inputs recorded from the real run and validated by the "
+    "driver (`out !bad-choice`): the order of the queue map in perform_submits (`order=`; the theorems c17_silent / "
+    "c17_resume_live need it duplicate-free, c17_limits/c18_* hold for any list), the order of the allocation ids handed to "
+    "get_status_of_allocations (`rep=`). The order of the queued allocations inside compute_submission_permit is NOT an input: "
+    "the result is independent of it (theorem c17_permit_order_independent), the model uses insertion order.",
+    "u32/u64 counters are Nat (no overflow: active_worker_count sums `as u32`); `(sn as f32 / wpa as f32).floor()` is modelled "
+    "as Nat division, exact for single_node_workers < 2^24 (generated range 0..9).",
+    "DisconnectedWorkers::all_crashed: the model keeps one bit per lost worker, computed at the event from (reason, lifetime) "
+    "with the literal 60 s of state.rs (generated lifetimes straddle it: 59999/60000/60001 ms).",
+    "`resume()`: which limiter fields it resets is PROBED from the running implementation at harness start (`rmask=` in the "
+    "case header; pinned code 0 = F13, after fix cdd9fd1: 3 = both failure counters) and is a parameter of the model; "
+    "c17_resume_live is stated for masks with bits 0 and 1, its negation is proved for mask 0 on the F13 witness.",
+    "c18_announce (trace level) assumes queue ids are not reused: addQueue without explicit id (the journal-restore path that "
+    "passes explicit ids is excluded by hypothesis NoExplicitIds; c18_announce_step, c18_monotone, c18_workers* need no such "
+    "assumption). Allocation ids returned by the batch system need NOT be fresh: a duplicate inside a queue is the modelled "
+    "panic dup-alloc (run ends), a duplicate across queues is modelled exactly (index overwritten; later a2q-missing panic).",
+    "A step that panics (6 modelled sites: query-index, permit-assert, rem-zero, dup-alloc, a2q-missing, dup-queue - all need an "
+    "adversarial batch system / scheduler answer / max_workers_per_alloc=0 / explicit duplicate queue id) ends the run; "
+    "c17_limits holds for the state left behind as well, c17_pause / c17_resume_live assume the tick does not panic.",
+    "Not covered: autoalloc_process' select loop timing (which arm fires when), dry-run submission (try_submit_allocation), "
+    "PBS/Slurm command construction and output parsing (queue/{pbs,slurm,common}.rs), removal of stale directories, "
+    "GetQueues/GetQueueAllocations/GetAllocation read-only requests, worker_resources / query construction "
+    "(create_queue_worker_query) beyond the number of queries.",
+]
+
+_TRUSTED = [
+    "hooks: hyperqueue::verif::autoalloc (VerifAutoAlloc = real AutoAllocState driven through the real handle_message / "
+    "perform_submits / do_periodic_update, guarded by has_active_queues exactly as the two select! arms; scripted QueueHandler; "
+    "override_worker_query = one cfg-guarded `let response = …?` after the real new_worker_query call in "
+    "compute_query_responses; mocked_now = cfg-guarded early return in common::utils::time::now_monotonic; "
+    "verif_set_handler / verif_snapshot / verif_allocation_to_queue accessors in state.rs; verif_hooks wrappers in process.rs)",
+    "harness/src/autoalloc.rs (generator, monitors, canonical printing, panic-message -> site mapping) and "
+    "lean/HqModel/AutoAlloc/Wire.lean + lean/Driver/AutoallocMain.lean (parser / printer / choice validation)",
+    "FxHash iteration order of tako::Map is deterministic (replays re-resolve the same orders)",
+]
+
 _PART = {
     "component": "autoalloc", "driver": "hqm-autoalloc",
-    "quick":    {"cases": 60,  "shards": 16, "extra": []},
-    "thorough": {"cases": 1500, "shards": 16, "extra": []},
+    "quick":    {"cases": 150, "shards": 16, "extra": []},
+    "thorough": {"cases": 2500, "shards": 16, "extra": []},
 }
 
 PROPS = {
     "C17": {
         "module": "HqModel.Props.C17",
-        "theorems": ["HqModel.C17.c17_limits"],
-        "parts": [dict(_PART, clauses=["c17."], tags=["submit", "query", "queue", "lim", "alloc", "tickres", "resp", "sched", "ev"])],
-        "assumptions": [], "trusted_base": [],
+        "theorems": [
+            "HqModel.C17.c17_limits",
+            "HqModel.C17.c17_limits_step",
+            "HqModel.C17.c17_silent",
+            "HqModel.C17.c17_pause",
+            "HqModel.C17.c17_paused_stays",
+            "HqModel.C17.c17_resume_live",
+            "HqModel.C17.c17_resume_live_false_before_fix",
+            "HqModel.C17.c17_permit_order_independent",
+        ],
+        "parts": [dict(_PART, clauses=["c17."],
+                       tags=["submit", "query", "queue", "lim", "alloc", "tickres", "resp", "sched", "ev", "a2q"])],
+        "assumptions": _ASSUMPTIONS,
+        "trusted_base": _TRUSTED,
     },
     "C18": {
         "module": "HqModel.Props.C18",
-        "theorems": ["HqModel.C18.c18_wiring"],
-        "parts": [dict(_PART, clauses=["c18."], tags=["ev", "alloc", "rm", "a2q", "resp", "ran", "queue"])],
-        "assumptions": [], "trusted_base": [],
+        "theorems": [
+            "HqModel.C18.c18_monotone",
+            "HqModel.C18.c18_announce",
+            "HqModel.C18.c18_announce_step",
+            "HqModel.C18.c18_workers",
+            "HqModel.C18.c18_workers_finish",
+            "HqModel.C18.c18_workers_lost_set",
+            "HqModel.C18.c18_workers_fed",
+            "HqModel.C18.c18_workers_event",
+            "HqModel.C18.c18_unknown",
+            "HqModel.C18.c18_remove_queue",
+            "HqModel.C18.c18_remove_queue_refused",
+            "HqModel.C18.c18_ids_unique",
+        ],
+        "parts": [dict(_PART, clauses=["c18."],
+                       tags=["ev", "alloc", "rm", "a2q", "resp", "ran", "queue", "lim", "sched"])],
+        "assumptions": _ASSUMPTIONS,
+        "trusted_base": _TRUSTED,
     },
 }
